@@ -25,6 +25,9 @@ var c02Headers = []c02Hdr{
 	{"Connect-Accept-Encoding", []string{"gzip", "rev"}}, {"Grpc-Encoding", []string{"identity"}}, {"Connect-Content-Encoding", []string{"identity"}},
 	{"X-App", []string{"v"}}, {"Te", []string{"trailers"}}, {"Connect-Protocol-Version", []string{"1"}}, {"Grpc-Timeout", []string{"5S"}},
 	{"Connect-Timeout-Ms", []string{"700"}}, {"X-Server-Timeout", []string{"3"}}, {"Content-Length", []string{"AUTO"}},
+	// hop-by-hop headers of an HTTP/1.1 client (RFC 9110 7.6.1: "Connection: TE" accompanies every TE header);
+	// the second one names headers that the target protocol needs
+	{"Connection", []string{"TE"}}, {"Connection", []string{"close, Grpc-Encoding, Content-Type, Te, Connect-Protocol-Version"}}, {"Keep-Alive", []string{"timeout=5"}},
 }
 
 func inStrs(s string, list []string) bool {
@@ -57,6 +60,18 @@ func init() {
 				for i := 0; i < cnt; i++ {
 					req = append(req, base[i%len(base)])
 				}
+			}
+		}
+		if (shape == "unary" || shape == "server") && b.Client.form.Enveloped() {
+			// an enveloped client that (wrongly) sends two messages, or none, on a method that takes one
+			if n := c.Choose("req-count-on-single-request-method", 3); n > 0 {
+				cnt := []int{2, 0}[n-1]
+				base := req
+				req = nil
+				for i := 0; i < cnt; i++ {
+					req = append(req, base[i%len(base)])
+				}
+				c.Attr("~request-messages", fmt.Sprint(cnt))
 			}
 		}
 		if !isREST {
@@ -146,6 +161,24 @@ func init() {
 		}
 		if br.FlaggedEmpty > 0 && (obs.Spec.Body == nil || wire.CountFlaggedEmpty(obs.Spec.Body.Data) == 0) {
 			fail("req.envelope.empty-flagged-compressed", "%d message frame(s) reach the backend with the compressed flag over zero bytes, which is not a valid compressed stream; the client sent no such frame", br.FlaggedEmpty)
+		}
+		// a flat (un-enveloped) request carries exactly one message: its body must be one
+		// well-formed message of the declared codec (messages the client sent are all well-formed)
+		if (br.Form == wire.ConnectUnary || br.Form == wire.REST && be.Seen.Method != "GET") && !isREST && len(br.Msgs) == 1 && len(br.Msgs[0]) > 0 && be.Seen.ReadErr == "" {
+			dcodec := br.Codec
+			if br.Form == wire.REST {
+				dcodec = "json"
+			}
+			if br.Form == wire.ConnectUnary || b.Client.method == "Unary" { // (REST bodies of other bindings are single fields)
+				if _, derr := wire.Unmarshal(dcodec, world.MsgDesc(), br.Msgs[0]); derr != nil {
+					fail("req.flat.body-not-a-message", "the flat request body handed to the backend is not a well-formed %s message: %v (the client sent %d well-formed message(s))", dcodec, derr, len(req))
+				}
+			}
+		}
+		if len(req) > 1 && (shape == "unary" || shape == "server") && !br.Form.Enveloped() && be.Seen.ReadErr == "" && len(be.Seen.Body) > 0 {
+			// (where the one message travels in the request line - a GET - what follows it in the
+			// client's body is never read; not judged)
+			fail("message-count-hidden", "the client sent %d messages on a method that takes exactly one; the backend was handed a flat %s request that ends cleanly, which can only ever look like one message", len(req), br.Form)
 		}
 		// protocol: one of the configured ones; the client's own if acceptable
 		sp := world.FormToProtocol(br.Form)
